@@ -134,6 +134,37 @@ CHECKS = {
              "checked against the tree dump.",
         note="One hand-built tree (nested multi, titled with quote/backslash/numeric titles, single sections); doubled separators and "
              "non-decimal indices are left open by the statement ('unspec', not compared)."),
+    "C13": dict(
+        cat="model_checking", ref="7/C13",
+        text="Parser.tla models include(): the included file's tokens are read in place with the including source's (file, line) "
+             "saved and restored, at most ten files open, any failure aborting (and unwinding) the whole parse. TLC enumerates main "
+             "texts over an alphabet with the include function and the names of a fixed file system (plain, nested, section re-opening, "
+             "failing, self-including, chains of 10 and 11, directory, missing) and checks flattening equivalence, position "
+             "restoration, reported failures and the depth limit. Behaviours are replayed on a real directory tree: tree, return "
+             "code, first diagnostic's file and line, descriptor and include-stack balance; plus 12 failing includes followed by "
+             "succeeding ones, and resolution through the search path.",
+        note="Files hold complete items (a file ending inside a section body is outside the enumerated space); unreadable files cannot be "
+             "produced as root and are not covered; FIFOs are not used (opening one blocks)."),
+    "C17": dict(
+        cat="model_checking", ref="7/C17",
+        text="SearchPath.tla: reference resolution (first directory in add order holding a regular file; absolute names bypass; "
+             "directories and missing files never match) against the operational prepend + oldest-first recursion, and tilde expansion "
+             "over a password-database model. TLC checks agreement on every search-path sequence up to the bound x placements of a "
+             "same-named file / directory x eight names. Behaviours are replayed on a real tree: cfg_searchpath results and which "
+             "file's marker value cfg_parse and include() read; twelve tilde forms through cfg_tilde_expand / cfg_add_searchpath "
+             "under ASan and under valgrind (uninitialised-memory clause).",
+        note="Depends on the sandbox accounts (root:/root, nobody:/nonexistent, no 'nouser'), verified at run time; the valgrind part is an "
+             "instrumentation verdict, not TLC's."),
+    "C08": dict(
+        cat="model_checking", ref="7/C08",
+        text="MC_Scan composes Lexer.tla and Parser.tla at byte level with the process-global scanner state (start condition, open "
+             "include levels) as a variable shared by two contexts. TLC enumerates histories of events (accepted parse; aborted inside "
+             "a double-quoted / single-quoted string, a comment, on a bad escape, inside an included file, by the depth limit; "
+             "accepted include; free + re-create) on both contexts and checks that the scanner is clean at every call boundary, that "
+             "probe parses equal their fresh-process result, and that contexts do not influence each other; a model of the unrepaired "
+             "scanner violates the invariant (vacuity witness). Histories and probes are replayed in one process and compared step by step.",
+        note="The 'failed a range check' event needs typed options and is covered at token level (pairs of texts parsed into one context) "
+             "because the byte-level composition carries string options only."),
 }
 
 PENDING = {
